@@ -4,6 +4,7 @@ import (
 	"fmt"
 	"go/token"
 	"go/types"
+	"strings"
 
 	"gvc/internal/smt"
 	"gvc/internal/spec"
@@ -187,7 +188,10 @@ func (e *Engine) evalSpec(env *SpecEnv, x spec.Expr) (Val, error) {
 		case *types.Array:
 			return Val{Unbox(smt.App(smt.V, "s_at", a.T, i.T), SortOf(u.Elem())), u.Elem()}, nil
 		case *types.Map:
-			return Val{Unbox(smt.App(smt.V, "m_get", a.T, Box(i.T)), SortOf(u.Elem())), u.Elem()}, nil
+			// as in Go: the zero value for an absent key
+			k := Box(i.T)
+			got := Unbox(smt.App(smt.V, "m_get", a.T, k), SortOf(u.Elem()))
+			return Val{smt.Ite(smt.App(smt.Bool, "m_has", a.T, k), got, e.ZeroOf(u.Elem())), u.Elem()}, nil
 		case *types.Basic:
 			if u.Info()&types.IsString != 0 {
 				return Val{smt.App(smt.Int, "str_at", a.T, i.T), types.Typ[types.Byte]}, nil
@@ -245,6 +249,37 @@ func (e *Engine) evalSpec(env *SpecEnv, x spec.Expr) (Val, error) {
 		if f, ok := e.Specs[x.Fun]; ok {
 			return f(e, env, x.Args)
 		}
+		gf, ok := e.Contracts.GhostFuns[env.Pkg+"."+x.Fun]
+		if !ok {
+			// a ghost function of another package's contract file (external contracts)
+			var ks []string
+			for k := range e.Contracts.GhostFuns {
+				if strings.HasSuffix(k, "."+x.Fun) {
+					ks = append(ks, k)
+				}
+			}
+			if len(ks) == 1 {
+				gf, ok = e.Contracts.GhostFuns[ks[0]], true
+			}
+		}
+		if ok {
+			if len(gf.Params) != len(x.Args) {
+				return Val{}, fmt.Errorf("spec: %s takes %d arguments", x.Fun, len(gf.Params))
+			}
+			n := *env
+			n.Bound = map[string]Val{}
+			for k, v := range env.Bound {
+				n.Bound[k] = v
+			}
+			for i, pn := range gf.Params {
+				v, err := e.evalSpec(env, x.Args[i])
+				if err != nil {
+					return Val{}, err
+				}
+				n.Bound[pn] = v
+			}
+			return e.evalSpec(&n, gf.Body)
+		}
 		// application of a function-typed program variable: the same
 		// uninterpreted function a dynamic call produces
 		if v, ok, _ := env.lookup(x.Fun); ok && v.Ty != nil {
@@ -298,7 +333,7 @@ func (e *Engine) specFieldPath(env *SpecEnv, base Val, path []int) (Val, error) 
 			return Val{}, fmt.Errorf("spec: field access on non-struct %s", t)
 		}
 		ft := s.Field(idx).Type()
-		cur = Val{Unbox(smt.App(smt.V, "f_get", obj, smt.IntLit(idx)), SortOf(ft)), ft}
+		cur = Val{Unbox(smt.App(smt.V, "f_get", obj, smt.IntLit(e.FID(t, idx))), SortOf(ft)), ft}
 	}
 	return cur, nil
 }
@@ -421,7 +456,43 @@ func (e *Engine) specCallPure(env *SpecEnv, x *spec.Call) (Val, error) {
 	}
 	fname := smt.Ident("fn!" + key)
 	e.Decls.Fun(fname, sorts, rs)
-	return Val{smt.App(rs, fname, terms...), rt}, nil
+	res := Val{smt.App(rs, fname, terms...), rt}
+	// the postconditions of a pure function hold of this application too
+	// (ground applications only: arguments under a quantifier are skipped)
+	if len(con.Ensures) > 0 && !e.inPureEnsures && !strings.Contains(res.T.S, "?") && len(con.Results) == 1 {
+		e.inPureEnsures = true
+		bound := map[string]Val{con.Results[0]: res}
+		off := 0
+		if con.Recv != "" && len(x.Args) == len(con.Params)+1 {
+			if v, err := e.evalSpec(env, x.Args[0]); err == nil {
+				bound[con.Recv] = v
+			}
+			off = 1
+		}
+		ok := true
+		for i, pn := range con.Params {
+			if i+off >= len(x.Args) {
+				ok = false
+				break
+			}
+			v, err := e.evalSpec(env, x.Args[i+off])
+			if err != nil {
+				ok = false
+				break
+			}
+			bound[pn] = v
+		}
+		if ok {
+			cenv := &SpecEnv{E: e, St: env.St, Old: env.St, Bound: bound, Callee: true, Pkg: keyPkg(con.Key)}
+			for _, en := range con.Ensures {
+				if v, err := e.evalSpec(cenv, en.Expr); err == nil {
+					env.St.Assume(v.T)
+				}
+			}
+		}
+		e.inPureEnsures = false
+	}
+	return res, nil
 }
 
 // ResolveType turns a type expression (in the package under verification) into a Go type.
@@ -453,6 +524,110 @@ func registerBuiltinSpecs(e *Engine) {
 			return Val{}, fmt.Errorf("spec: %v", err)
 		}
 		return Val{n, types.Typ[types.Int]}, nil
+	}
+	// final(p): the value of a (slice) parameter when the function returns
+	// (callee side: the current value of the variable; caller side: the value
+	// the argument variable holds after the call)
+	e.Specs["final"] = func(e *Engine, env *SpecEnv, args []spec.Expr) (Val, error) {
+		id, ok := args[0].(*spec.Ident)
+		if !ok || len(args) != 1 {
+			return Val{}, fmt.Errorf("spec: final(<parameter>)")
+		}
+		if v, ok := env.Bound["final!"+id.Name]; ok {
+			return v, nil
+		}
+		if env.Callee {
+			return Val{}, fmt.Errorf("spec: final(%s): the contract has no 'mutates-arg: %s'", id.Name, id.Name)
+		}
+		saved := env.Bound[id.Name]
+		delete(env.Bound, id.Name)
+		v, ok2, err := env.lookup(id.Name)
+		if saved.T.S != "" {
+			env.Bound[id.Name] = saved
+		}
+		if err != nil || !ok2 {
+			return Val{}, fmt.Errorf("spec: final(%s): no such variable", id.Name)
+		}
+		return v, nil
+	}
+	// ---- ghost file system vocabulary (C07, C10) ----
+	uf := func(name string, ret smt.Sort, readsHeap bool) SpecFunc {
+		return func(e *Engine, env *SpecEnv, args []spec.Expr) (Val, error) {
+			var ts []smt.T
+			var sorts []smt.Sort
+			for _, a := range args {
+				v, err := e.evalSpec(env, a)
+				if err != nil {
+					return Val{}, err
+				}
+				ts = append(ts, Box(v.T))
+				sorts = append(sorts, smt.V)
+			}
+			if readsHeap {
+				ts = append(ts, env.St.heap)
+				sorts = append(sorts, smt.Heap)
+			}
+			e.Decls.Fun(name, sorts, ret)
+			var ty types.Type
+			if ret == smt.V {
+				ty = types.Typ[types.String]
+			} else if ret == smt.Bool {
+				ty = types.Typ[types.Bool]
+			}
+			return Val{smt.App(ret, name, ts...), ty}, nil
+		}
+	}
+	e.Specs["pathOf"] = uf("pathOf", smt.V, false)            // the path a file handle / writer refers to
+	e.Specs["Format"] = uf("Format", smt.V, true)             // go/format output for an AST in its current state
+	e.Specs["WriteToBytes"] = uf("WriteToBytes", smt.V, true) // what printer.WriteTo writes, in the printer's current state
+	e.Specs["isNotExist"] = uf("isNotExist", smt.Bool, false)
+	e.Specs["isDerivedFile"] = uf("isDerivedFile", smt.Bool, false)
+	e.Specs["joinPath"] = uf("joinPath", smt.V, false)
+	e.Specs["mayRename"] = uf("mayRename", smt.Bool, false)
+	// overwrite(c, o, d): content c after writing d at offset o
+	e.Specs["overwrite"] = func(e *Engine, env *SpecEnv, args []spec.Expr) (Val, error) {
+		if len(args) != 3 {
+			return Val{}, fmt.Errorf("spec: overwrite(content, offset, data)")
+		}
+		c, err := e.evalSpec(env, args[0])
+		if err != nil {
+			return Val{}, err
+		}
+		o, err := e.evalSpec(env, args[1])
+		if err != nil {
+			return Val{}, err
+		}
+		d, err := e.evalSpec(env, args[2])
+		if err != nil {
+			return Val{}, err
+		}
+		if !e.Decls.HasFun("overwrite") {
+			e.Decls.Fun("overwrite", []smt.Sort{smt.V, smt.Int, smt.V}, smt.V)
+			cc, dd := smt.T{S: "c", Sort: smt.V}, smt.T{S: "d", Sort: smt.V}
+			oo := smt.T{S: "o", Sort: smt.Int}
+			ow := smt.App(smt.V, "overwrite", cc, oo, dd)
+			bs := []smt.Bound{{Name: "c", Sort: smt.V}, {Name: "o", Sort: smt.Int}, {Name: "d", Sort: smt.V}}
+			ln := func(x smt.T) smt.T { return smt.App(smt.Int, "str_len", x) }
+			// appending at the end; overwriting a content that is not longer than the data
+			e.Axioms = append(e.Axioms, smt.Forall(bs, smt.Implies(smt.Eq(oo, ln(cc)), smt.Eq(ow, smt.App(smt.V, "str_cat", cc, dd))), ow))
+			e.Axioms = append(e.Axioms, smt.Forall(bs, smt.Implies(smt.And(smt.Eq(oo, smt.IntLit(0)), smt.Le(ln(cc), ln(dd))), smt.Eq(ow, dd)), ow))
+			// a longer old content leaves a tail
+			e.Axioms = append(e.Axioms, smt.Forall(bs, smt.Implies(smt.And(smt.Eq(oo, smt.IntLit(0)), smt.Gt(ln(cc), ln(dd))), smt.And(smt.Neq(ow, dd), smt.Eq(ln(ow), ln(cc)))), ow))
+			e.Axioms = append(e.Axioms, smt.Forall([]smt.Bound{{Name: "d", Sort: smt.V}}, smt.Eq(smt.App(smt.V, "str_cat", e.StrLit(""), dd), dd)))
+		}
+		return Val{smt.App(smt.V, "overwrite", c.T, o.T, d.T), types.Typ[types.String]}, nil
+	}
+	// hasFlag(flags, bit): bit (a power of two) is set in flags
+	e.Specs["hasFlag"] = func(e *Engine, env *SpecEnv, args []spec.Expr) (Val, error) {
+		f, err := e.evalSpec(env, args[0])
+		if err != nil {
+			return Val{}, err
+		}
+		b, err := e.evalSpec(env, args[1])
+		if err != nil {
+			return Val{}, err
+		}
+		return Val{smt.Eq(smt.App(smt.Int, "mod", smt.App(smt.Int, "div", f.T, b.T), smt.IntLit(2)), smt.IntLit(1)), types.Typ[types.Bool]}, nil
 	}
 	e.Specs["visited"] = func(e *Engine, env *SpecEnv, args []spec.Expr) (Val, error) {
 		if env.Visited == nil {
@@ -512,6 +687,17 @@ func registerBuiltinSpecs(e *Engine) {
 			return Val{}, err
 		}
 		return Val{smt.App(smt.V, "m_upd", m.T, Box(k.T), Box(v.T)), m.Ty}, nil
+	}
+	e.Specs["mapDel"] = func(e *Engine, env *SpecEnv, args []spec.Expr) (Val, error) {
+		m, err := e.evalSpec(env, args[0])
+		if err != nil {
+			return Val{}, err
+		}
+		k, err := e.evalSpec(env, args[1])
+		if err != nil {
+			return Val{}, err
+		}
+		return Val{smt.App(smt.V, "m_del", m.T, Box(k.T)), m.Ty}, nil
 	}
 	e.Specs["sliceApp"] = func(e *Engine, env *SpecEnv, args []spec.Expr) (Val, error) {
 		s, err := e.evalSpec(env, args[0])
